@@ -49,6 +49,9 @@ EXTRA_DESC = {
     # a vector field whose values are *submitted* in a broadcast-compatible shape ((n, 1) / (1,)) — the store's
     # fancy assignment broadcasts them to the declared shape (2,)
     "b": ("ex_b", (2,), np.float64),
+    # unsigned integer fields (dtype kind "u": integers too -- blank value 0)
+    "u": ("ex_u", (), np.uint32),
+    "w": ("ex_w", (3,), np.uint8),
 }
 
 
@@ -70,6 +73,10 @@ def extra_value(c, tok):
         return Tok(tok) if tok % 2 == 0 else {"t": tok}
     if c == "b":
         return np.full(2, tok * 0.5)
+    if c == "u":
+        return np.uint32(tok)
+    if c == "w":
+        return np.array([tok % 251, (tok + 1) % 251, (tok * 7) % 251], dtype=np.uint8)
     return np.array([[tok, tok + 1], [tok + 2, tok + 3]], dtype=np.float64)
 
 
@@ -125,13 +132,24 @@ def dtype_arg(case):
         return {"solution": dt, "objective": dt, "measures": dt}
     if form == "dictsol":
         return {"solution": np.float32 if dt == np.float64 else np.float64, "objective": dt, "measures": dt}
+    if form == "dictmix":
+        # objective (and threshold) in case["dtype"], measures (and solution) in the other precision
+        return {"solution": NP[meas_dtype(case)], "objective": dt, "measures": NP[meas_dtype(case)]}
     return dt
 
 
+def meas_dtype(case):
+    """Precision of the measures ("f32" / "f64"): case["dtype"] unless the dict form asks for mixed precisions."""
+    if case.get("forms", {}).get("dtype") == "dictmix":
+        return "f64" if case["dtype"] == "f32" else "f32"
+    return case["dtype"]
+
+
 def gen_forms(rng):
-    return {"dtype": rng.choice(["one", "one", "dict", "dictsol"]),
+    return {"dtype": rng.choice(["one", "one", "dict", "dictsol", "dictmix"]),
             "ranges": rng.choice(["tuples", "tuples", "nd", "lists"]),
-            "args": rng.choice(["nd", "nd", "list", "kw", "native", "strided"])}
+            "args": rng.choice(["nd", "nd", "list", "kw", "native", "strided"]),
+            "kworder": rng.choice(["same", "alt"])}
 
 
 def submit(archive, case, single, sol, obj, meas, extras):
@@ -141,8 +159,10 @@ def submit(archive, case, single, sol, obj, meas, extras):
     form = case.get("forms", {}).get("args", "nd")
     npdt = NP[case["dtype"]]
     n = len(sol)
+    if case.get("forms", {}).get("kworder") == "alt" and n and int(sol[0][0]) % 2:
+        extras = dict(reversed(list(extras.items())))      # the extra fields as keywords in another order
     if form == "native":
-        obj, meas = (None if obj is None else obj.astype(npdt)), meas.astype(npdt)
+        obj, meas = (None if obj is None else obj.astype(npdt)), meas.astype(NP[meas_dtype(case)])
     elif form == "strided" and n:
         big = np.zeros((2 * n, 2 * meas.shape[1]))
         big[::2, ::2] = meas
@@ -283,11 +303,15 @@ class Run:
         self.case = case
         self.props = set(props)
         self.dt = case["dtype"]
+        self.mdt = meas_dtype(case)     # precision of the measures (differs from the objective's with a mixed dict dtype)
         self.elitist = case.get("tmin") is None
         self.exact_thr = exact_thr
         self.archive = make_archive(case)
         self.drv = Driver("arch")
-        r = self.drv.ask(model_new_line(case, self.archive))
+        # `rtol` (edge strata, grid only): half-width of the zone around a cell edge that the archive's floating
+        # point cannot resolve -- there the model follows the implementation's choice if it is admissible (`pin`)
+        self.rtol = fr(case["rtol"]) if case.get("rtol") and case["kind"] == "grid" else None
+        r = self.drv.ask(model_new_line(case, self.archive) + (f" rtol={q(self.rtol)}" if self.rtol else ""))
         if not r.startswith("ok"):
             raise RuntimeError(f"model rejected config: {r}")
         self.hist = {}      # cell -> list of (tok, obj, meas) routed since last clear (oracle C01)
@@ -303,6 +327,21 @@ class Run:
     def close(self):
         self.drv.close()
 
+    def sync_routing(self, meas_rows, cells, where):
+        """Inside the rounding zone the model takes the cell the implementation resolved (if admissible)."""
+        if not self.rtol or not meas_rows:
+            return None
+        m_cells = [int(x) for x in self.drv.ask("idx " + " ".join(ql(m) for m in meas_rows)).split(",")]
+        for m, c, mc in zip(meas_rows, cells, m_cells):
+            if c != mc:
+                r = self.drv.ask(f"pin {ql(m)} {c}")
+                self.stat["routing-pinned"] = self.stat.get("routing-pinned", 0) + 1
+                if r != "ok":
+                    return self.F_("C03", "corr", f"{where}: measures {[str(x) for x in m]} routed to cell {c}, outside "
+                                   f"the rounding zone (rtol={self.rtol}) around the exact cell {mc}") or \
+                        Failure("corr", f"[routing] {where}: impl={c} not admissible (exact {mc}, rtol={self.rtol})")
+        return None
+
     def bump(self, k):
         self.stat[k] = self.stat.get(k, 0) + 1
 
@@ -310,7 +349,7 @@ class Run:
 
     def cast_row(self, row):
         tok, obj, meas = row
-        return tok, to_dtype(fr(obj), self.dt), [to_dtype(fr(m), self.dt) for m in meas]
+        return tok, to_dtype(fr(obj), self.dt), [to_dtype(fr(m), self.mdt) for m in meas]
 
     def F_(self, prop, kind, what):
         """Failure attributed to `prop`; ignored (None) when this run does not serve it."""
@@ -341,7 +380,7 @@ class Run:
         import faultlib
         pre = self.snapshot()
         res, exc = faultlib.inject(self.archive, op, self.dt, self.case.get("sol_dim", 2), len(self.case["lo"]),
-                                   self.case.get("layout", ""), sched=self.make_sched)
+                                   self.case.get("layout", ""), mdt=self.mdt, sched=self.make_sched)
         self.bump(f"bad:{op['entry']}:{op['arg']}:{op['kind']}:{res}")
         if res == "skip":
             return None
@@ -392,9 +431,12 @@ class Run:
         npdt = NP[dt]
         if rows:
             cells = [int(i) for i in self.archive.index_of(
-                np.array([[float(m) for m in r[2]] for r in crow], dtype=npdt))]
+                np.array([[float(m) for m in r[2]] for r in crow], dtype=NP[self.mdt]))]
         else:
             cells = []
+        f = self.sync_routing([r[2] for r in crow], cells, where)
+        if f:
+            return f
         # twin for single-vs-batch-of-one (C02)
         twin1 = None
         if "C02" in self.props and len(rows) == 1:
@@ -656,7 +698,7 @@ class Run:
         rows = post["rows"]
         if not rows:
             return None
-        npdt = NP[self.dt]
+        npdt = NP[self.mdt]
         cells = sorted(rows)
         ms = np.array([[float(x) for x in rows[c]["meas"]] for c in cells], dtype=npdt)
         occ, data = self.archive.retrieve(ms)
@@ -665,6 +707,23 @@ class Run:
                 return self.F_("C07", "oracle",
                                f"{where}: the elite stored in cell {c} is not found by querying its own measures "
                                f"{[str(x) for x in rows[c]['meas']]} (occupied={bool(occ[k])}, index={int(data['index'][k])})")
+        # the same values in another container: float64-typed copies / nested lists / one by one (for a float32
+        # archive these carry exactly the stored values; how the query is typed must not matter)
+        forms = [("a float64 array", ms.astype(np.float64)), ("nested lists", ms.tolist())]
+        for label, qarr in forms:
+            occ2, data2 = self.archive.retrieve(qarr)
+            for k, c in enumerate(cells):
+                if not occ2[k] or int(data2["index"][k]) != c:
+                    return self.F_("C07", "oracle",
+                                   f"{where}: the elite stored in cell {c} is not found by querying its own measures "
+                                   f"{[str(x) for x in rows[c]['meas']]} passed as {label} "
+                                   f"(occupied={bool(occ2[k])}, index={int(data2['index'][k])}; archive dtype {self.dt})")
+        k = len(cells) // 2
+        o1, d1 = self.archive.retrieve_single(ms[k].tolist())
+        if not o1 or int(d1["index"]) != cells[k]:
+            return self.F_("C07", "oracle",
+                           f"{where}: retrieve_single does not find the elite of cell {cells[k]} through its own measures "
+                           f"passed as a list (occupied={bool(o1)}, index={int(d1['index'])}; archive dtype {self.dt})")
         return None
 
     def do_retrieve(self, qs, where, single=False):
@@ -675,8 +734,8 @@ class Run:
         pre = observe(self.archive, self.case)
         full = self.archive.data()
         by_cell = {int(i): k for k, i in enumerate(full["index"])}
-        cq = [[to_dtype(fr(m), dt) for m in qv] for qv in qs]
-        arr = np.array([[float(m) for m in qv] for qv in cq], dtype=npdt).reshape(len(qs), len(self.case["lo"]))
+        cq = [[to_dtype(fr(m), self.mdt) for m in qv] for qv in qs]
+        arr = np.array([[float(m) for m in qv] for qv in cq], dtype=NP[self.mdt]).reshape(len(qs), len(self.case["lo"]))
         if single:
             o1, d1 = self.archive.retrieve_single(arr[0])
             occ = np.array([o1])
@@ -684,6 +743,9 @@ class Run:
         else:
             occ, data = self.archive.retrieve(arr)
         cells = [int(i) for i in self.archive.index_of(arr)] if len(qs) else []
+        f = self.sync_routing(cq, cells, where)
+        if f:
+            return f
         for k, c in enumerate(cells):
             if c in by_cell:
                 j = by_cell[c]
@@ -959,8 +1021,12 @@ def gen_case(rng, profile="mixed", kinds=("grid", "cvt", "sb"), cma=False, dtype
     case["dtype"] = dtype or rng.choice(["f64", "f64", "f32"])
     if profile == "collide":
         case["dtype"] = "f32"
-    case["layout"] = rng.choice(["", "s", "v", "o", "sv", "svo", "m", "om", "b", "sb"])
+    case["layout"] = rng.choice(["", "s", "v", "o", "sv", "svo", "m", "om", "b", "sb", "u", "uw", "ow", "su"])
     case["forms"] = gen_forms(rng)
+    if profile == "collide" and case["forms"]["dtype"] == "dictmix":
+        # float64 objectives (which must stay distinct) next to float32 measures: values that collide in float32
+        # only tell the two precisions apart if nothing about the objective is kept in the measures' precision
+        case["dtype"] = "f64"
     case["sol_dim"] = rng.choice([1, 2, 3])
     case["off"] = q(rng.choice([F(0), F(-8), F(3, 2), F(-100)]))
     if cma and case["kind"] != "sb":
